@@ -6,6 +6,7 @@ import (
 	"go/token"
 	"go/types"
 	"sort"
+	"strconv"
 	"strings"
 
 	"golang.org/x/tools/go/packages"
@@ -32,6 +33,7 @@ type envVal struct {
 	isLen  bool         // a variadic parameter bound to i arguments
 	sym    types.Object // a package-level symbol passed by name (e.g. _F_i64toa, _AX)
 	opnd   *Operand     // an operand built at the call site (jit.Ptr(_VP, 8), ...)
+	elts   []envVal     // isLen: the bound elements of a variadic parameter, when known
 }
 
 type asmSeq struct {
@@ -167,6 +169,12 @@ func (a *asmCtx) evalIn(e ast.Expr, env asmEnv) (envVal, bool) {
 			o := a.resolveOperand(a.em.operand(x, 0), env)
 			if o.Kind == "mem" || o.Kind == "reg" {
 				return envVal{opnd: &o}, true
+			}
+		}
+		// strconv.Itoa(i) with a bound i (labels such as "_no_writeBarrier" + strconv.Itoa(i) + "_{n}")
+		if callee := a.p.Callee(x); callee != nil && callee.Pkg() != nil && callee.Pkg().Path() == "strconv" && callee.Name() == "Itoa" && len(x.Args) == 1 {
+			if v, ok := a.evalIn(x.Args[0], env); ok && v.isInt {
+				return envVal{isStr: true, s: strconv.FormatInt(v.i, 10)}, true
 			}
 		}
 		// conversions int64(x)
@@ -341,6 +349,22 @@ func (a *asmCtx) seqs(fd *ast.FuncDecl, env asmEnv, depth int) ([]asmSeq, bool) 
 				break
 			}
 			switch {
+			case ev.Loop > 0 && ev.Range != nil:
+				// for i, v := range r  with r a bound variadic / register list
+				if xo := a.p.ExprObj(ev.Range.X); xo != nil {
+					if rv, ok := local[xo]; ok && rv.isLen && ev.Loop-1 < len(rv.elts) {
+						if id, ok := ev.Range.Key.(*ast.Ident); ok && id.Name != "_" {
+							if o := a.p.ObjectOf(id); o != nil {
+								local[o] = envVal{isInt: true, i: int64(ev.Loop - 1)}
+							}
+						}
+						if id, ok := ev.Range.Value.(*ast.Ident); ok && id.Name != "_" {
+							if o := a.p.ObjectOf(id); o != nil {
+								local[o] = rv.elts[ev.Loop-1]
+							}
+						}
+					}
+				}
 			case ev.Loop == -2:
 				local = asmEnv{}
 				for k, v := range env {
@@ -420,7 +444,12 @@ func (a *asmCtx) seqs(fd *ast.FuncDecl, env asmEnv, depth int) ([]asmSeq, bool) 
 							if n < 0 {
 								n = 0
 							}
-							cenv[a.p.ObjectOf(f.Names[0])] = envVal{isLen: true, i: int64(n)}
+							var elts []envVal
+							for k := pi; k < len(ev.Call.Args); k++ {
+								v, _ := a.evalIn(ev.Call.Args[k], local)
+								elts = append(elts, v)
+							}
+							cenv[a.p.ObjectOf(f.Names[0])] = envVal{isLen: true, i: int64(n), elts: elts}
 						} else if pi < len(ev.Call.Args) {
 							// f(xs...) with xs a package-level slice literal, or a bound variadic of the caller
 							arg := ast.Unparen(ev.Call.Args[pi])
@@ -428,7 +457,12 @@ func (a *asmCtx) seqs(fd *ast.FuncDecl, env asmEnv, depth int) ([]asmSeq, bool) 
 								if v, ok := local[o]; ok && v.isLen {
 									cenv[a.p.ObjectOf(f.Names[0])] = v
 								} else if cl, ok := a.p.VarInit(o).(*ast.CompositeLit); ok {
-									cenv[a.p.ObjectOf(f.Names[0])] = envVal{isLen: true, i: int64(len(cl.Elts))}
+									var elts []envVal
+									for _, el := range cl.Elts {
+										v, _ := a.evalIn(el, asmEnv{})
+										elts = append(elts, v)
+									}
+									cenv[a.p.ObjectOf(f.Names[0])] = envVal{isLen: true, i: int64(len(cl.Elts)), elts: elts}
 								}
 							}
 						}
